@@ -27,7 +27,7 @@ def make_classes(spec, tag):
             if j in cs.get('hidden', []):
                 fields.append((f'c{c}h{j}', Any, field(default=7, init=False)))      # an attribute, not a constructor parameter
             if j < cs['own']:
-                fields.append((f'c{c}f{j}', Any, field(default=None)))
+                fields.append((f'c{c}f{j}', Any, field(default=None, kw_only=(j in cs.get('kwonly', [])))))   # keyword-only: after the positional ones in the signature
         bases = (classes[cs['parent']],) if cs['parent'] is not None else ()
         cls = make_dataclass(f'K{tag}_{c}', fields, bases=bases, eq=False)
         if cs['decorated'] or cs['parent'] is None:
